@@ -44,7 +44,7 @@ GLOBAL_RULES = [
 class Fn:
     def __init__(self, file, owner, name, ret='r', requires=(), ensures=(), loops=None, rules=(),
                  inject=(), sig_rules=(), decreases=None, label=None, mode=None, twin_wrap=None, props=None, safety_props=None,
-                 no_twin=False):
+                 no_twin=False, attrs=()):
         self.file = file
         self.owner = owner
         self.name = name
@@ -53,7 +53,7 @@ class Fn:
         self.ensures = list(ensures)     # [(label, expr)]
         self.loops = loops or {}         # ordinal -> {'invariant': [(label, expr)], 'decreases': expr}
         self.rules = list(rules)         # unit-specific Rule objects (applied after the global table)
-        self.inject = list(inject)       # [(regex, ghost_text)] ghost text appended after first line matching regex
+        self.inject = list(inject)       # [(regex, ghost_text[, opts])] ghost text appended to (opts 'before': prepended to) the first (opts 'all': every) line matching regex
         self.sig_rules = list(sig_rules)  # Rule objects applied to the signature
         self.decreases = decreases
         self.label = label or ((owner + '::' if owner else '') + name)
@@ -61,6 +61,7 @@ class Fn:
         self.twin_wrap = twin_wrap   # e.g. 'impl DomXmlText': where the vacuity twin goes when it cannot sit next to the fn
         self.props = props
         self.safety_props = safety_props
+        self.attrs = list(attrs)    # verifier attributes emitted before the signature (e.g. exec_allows_no_decreases_clause: stated, counted)
         self.no_twin = no_twin      # trait-impl members cannot get a renamed twin; allowed only for functions without `requires`
 
 
@@ -159,35 +160,55 @@ def assemble(template, fns, twins=False, repo=REPO):
         body = _apply_rules(body, fn.rules, hits)
         body_lines = body.split('\n')
         # ghost injections (specification only): appended to the end of the first matching line
-        for (rx, ghost) in fn.inject:
+        for inj in fn.inject:
+            rx, ghost = inj[0], inj[1]
+            opts = inj[2] if len(inj) > 2 else ''
             done = False
             for bi, bl in enumerate(body_lines):
                 if re.search(rx, bl):
-                    body_lines[bi] = bl + ' ' + ghost.replace('\n', ' ')
+                    g = ghost.replace('\n', ' ')
+                    if 'before' in opts:
+                        ind = re.match(r'\s*', bl).group(0)
+                        body_lines[bi] = ind + g + ' ' + bl.lstrip()
+                    else:
+                        body_lines[bi] = bl + ' ' + g
                     done = True
-                    break
+                    if 'all' not in opts:
+                        break
             if not done:
                 raise rustscan.ScanError(f'lost anchor: injection point /{rx}/ not found in {fn.label}')
         # loop contracts by ordinal
+        loop_parts = {}
         if fn.loops:
             ordinal = 0
             for bi, bl in enumerate(body_lines):
                 if re.search(r'^\s*(while\b|for\b|loop\b)', bl):
                     if ordinal in fn.loops:
                         spec = fn.loops[ordinal]
-                        # the loop header must end with '{' on this line
-                        if not bl.rstrip().endswith('{'):
-                            raise rustscan.ScanError(f'unsupported loop header layout in {fn.label}')
-                        clause = ''
+                        # header prefix | one generated line per invariant clause (so a failing span names its clause) | rest
+                        if '/*@loop*/' in bl:
+                            # a rewrite rule moved text behind the header's `{`: the rule marks where the clauses go
+                            pre, post = bl.split('/*@loop*/', 1)
+                        else:
+                            # the loop header must end with '{' on this line
+                            if not bl.rstrip().endswith('{'):
+                                raise rustscan.ScanError(f'unsupported loop header layout in {fn.label}')
+                            pre, post = bl.rstrip()[:-1], '{'
+                        parts = [(pre, None)]
                         if spec.get('invariant'):
-                            clause += ' invariant ' + ', '.join(e for (_, e) in spec['invariant']) + ','
+                            parts.append(('        invariant', None))
+                            for (lab, e) in spec['invariant']:
+                                parts.append(('            ' + e + ',', dict(kind='loopinv', label=lab)))
                         if spec.get('decreases'):
-                            clause += ' decreases ' + spec['decreases'] + ','
-                        body_lines[bi] = bl.rstrip()[:-1] + clause + ' {'
+                            parts.append(('        decreases ' + spec['decreases'] + ',', None))
+                        parts.append((post, None))
+                        loop_parts[bi] = parts
                     ordinal += 1
             if ordinal < len(fn.loops):
                 raise rustscan.ScanError(f'lost anchor: loop ordinal missing in {fn.label}')
         gen_start = len(lines_out) + 1
+        for a in fn.attrs:
+            emit(indent + a)
         emit(indent + sig, dict(key=key, kind='sig', label='sig', repo_file=fn.file, repo_line=item.start_line))
         if fn.requires:
             emit(indent + '    requires')
@@ -203,6 +224,13 @@ def assemble(template, fns, twins=False, repo=REPO):
         # body: line k of the body corresponds to repo line (line of '{') + k
         body_repo_line0 = item.start_line + item.sig.count('\n')
         for bi, bl in enumerate(body_lines):
+            if bi in loop_parts:
+                for (ptxt, pinfo) in loop_parts[bi]:
+                    info = dict(key=key, kind='body', label='body', repo_file=fn.file, repo_line=body_repo_line0 + bi)
+                    if pinfo:
+                        info.update(pinfo)
+                    emit(ptxt, info)
+                continue
             emit(bl if bi else indent + bl,
                  dict(key=key, kind='body', label='body', repo_file=fn.file, repo_line=body_repo_line0 + bi))
         gen_end = len(lines_out)
@@ -211,6 +239,8 @@ def assemble(template, fns, twins=False, repo=REPO):
         if twins and not fn.no_twin:
             tw = []
             tsig = re.sub(r'\bfn\s+' + re.escape(fn.name) + r'\b', 'fn ' + fn.name + '__vacuity', sig, count=1)
+            for a in fn.attrs:
+                tw.append((indent + a, None))
             tw.append((indent + tsig, None))
             if fn.requires:
                 tw.append((indent + '    requires', None))
@@ -221,6 +251,10 @@ def assemble(template, fns, twins=False, repo=REPO):
             if fn.decreases:
                 tw.append((indent + '    decreases ' + fn.decreases + ',', None))
             for bi, bl in enumerate(body_lines):
+                if bi in loop_parts:
+                    for (ptxt, pinfo) in loop_parts[bi]:
+                        tw.append((ptxt, None))
+                    continue
                 tw.append((bl if bi else indent + bl, None))
             if fn.twin_wrap:
                 deferred.append((fn.twin_wrap, tw))
